@@ -872,12 +872,12 @@ fn run(args: &Args) {
         for step_no in 0..len {
             // out-of-range extremes only under the default filter: with a downgraded tag the request goes on
             // into transaction building, whose own arithmetic is outside this model
-            let before_fp = fingerprint(&sys.node);
+            let before_fp = fingerprint_full(&sys.node);
             let before_store = store_dump(&sys.world.persister);
             let (op, j, o) = do_op(&mut sys, &mut rng, warn.is_empty(), script.as_ref().and_then(|s| s.get(step_no).copied()));
             // C10: a refused request changes nothing; C11: what the request left is durable
             if o.st == "Refused" && warn.is_empty() {
-                let mut d = fingerprint_diff(&before_fp, &fingerprint(&sys.node));
+                let mut d = fingerprint_diff(&before_fp, &fingerprint_full(&sys.node));
                 d.extend(store_diff(&before_store, &store_dump(&sys.world.persister)));
                 if !d.is_empty() {
                     mon.violations.push(format!("C10: refused {} changed: {}", op, d.join("; ")));
